@@ -39,6 +39,18 @@ CLAIMS = {
              "I_j + G_(j+1) + not I_(j+1) must be refuted by a run the Lean machine accepts (C09_path_from_splits). Partial: no "
              "algorithm-level theorem for the path property of labelled interpolation systems is proved.",
         design_ref="5 C09"),
+    "C19": dict(
+        technique="Lean 4 proof (front-end command machine: a rejected command is the identity; scripts equal their accepted sub-scripts) tied by differential runs of the executable with and without rejected commands and by comparison with the machine",
+        text="Theorems: for every state and command of the front-end machine (flags, assertion levels, scoped names including "
+             "names given inside terms, declarations, the record of accepted assertions) a command answered with an error returns "
+             "the state unchanged; inserting a rejected command anywhere in any script changes no other response and not the "
+             "final state; a script is equivalent to its accepted commands. Tie: generated legal incremental scripts (models or "
+             "cores flavour) with rejected commands inserted (non-Bool, ill-sorted and unresolvable assertions, duplicate names, "
+             "fresh inner names inside rejected assertions, pops beyond the stack): the executable is run with and without them "
+             "and must give the same check-sat answers and success/error responses, and models / cores that are valid for the "
+             "script without them; its accept/reject pattern and the number of active assertions per check must match the "
+             "machine. Partial: declarations, define-fun and option commands are not among the inserted commands.",
+        design_ref="5 C19"),
     "C29": dict(
         technique="Lean 4 proof (checker soundness independent of the declared logic: accepted unsat traces refute the roots, validated models satisfy the assertions) tied by certification of every answer on out-of-logic scripts",
         text="Theorems: C29_unsat_certified (Smt.unsat_sound, stated over the SMT-LIB semantics of every readable term, Int symbols "
